@@ -356,3 +356,62 @@ func vC16Overlap() {
 }
 
 func vhC16_overlap_2() { vC16Overlap() }
+
+// C16 under context cancellation: "never act early ... and fall silent after context cancellation".
+// A delaying operator holds a value when the subscription context is cancelled: the value is not
+// released early (delivered, if at all, no sooner than its delay), and what the source emits after
+// the cancellation is not delivered without its delay either.
+func vC16DelayCtx() {
+	const d = int64(1000)
+	g := vInt64("g") // the context is cancelled g after the first value was emitted
+	vAssume(g > 0)
+	vAssume(g < d)
+	ctx, cancel := context.WithCancel(context.Background())
+	p := &vProbe{name: "src"}
+	name := "Delay"
+	var obs Observable[int64]
+	if vChoice("op", 2) == 0 {
+		obs = Delay[int64](time.Duration(d))(p)
+	} else {
+		name = "DelayEach"
+		obs = DelayEach[int64](time.Duration(d))(p)
+	}
+	out := vNewStamped()
+	vGo(func() { obs.SubscribeWithContext(ctx, vObs(out.rec, vFlatInt)) })
+	vQuiesce()
+	var emitted []int64
+	t1 := vNow()
+	vGo(func() {
+		if p.live > 0 {
+			p.emit(vStep{vkNext, 1})
+		}
+	})
+	vQuiesce()
+	emitted = append(emitted, t1)
+	vAdvance(g)
+	vQuiesce()
+	cancel()
+	vQuiesce()
+	t2 := vNow()
+	vGo(func() {
+		if p.live > 0 {
+			p.emit(vStep{vkNext, 2})
+		}
+	})
+	vQuiesce()
+	emitted = append(emitted, t2)
+	vAdvance(d + d + d)
+	vQuiesce()
+	vCheckGrammar(name, out.rec)
+	for i, e := range out.rec.evs {
+		if e.kind != vkNext {
+			continue
+		}
+		k := e.vals[0] - 1
+		vAssert(k >= 0 && k < 2, name+": a value was delivered that the source did not emit")
+		vAssert(out.stamps[i] >= emitted[k]+d, name+": a value was delivered sooner than its delay after it was emitted (context cancelled meanwhile)")
+	}
+	vReach("end")
+}
+
+func vhC16_delayctx_2() { vC16DelayCtx() }
